@@ -87,8 +87,8 @@ def generate(rng, tier):
     # long vectors, memo warm, every write path, promoting (hash-changing conversion of the untouched elements) and plain writes
     for kind in ("date", "bigint", "int"):
         for path in paths:
-            for new in ("promote", "same", "none"):
-                n = rng.choice([32, 33, 40, 64, 70])
+            for new in ("promote", "same", "none") + (("promote_eq",) if kind == "date" else ()):
+                n = rng.choice([32, 33, 40, 64, 70]) if new != "promote_eq" else rng.choice([3, 5, 33, 64])
                 yield {"fam": "sens", "long": {"kind": kind, "n": n, "new": new}, "i": rng.choice([0, 1, n // 2, n - 1]), "path": path}
     for _ in range(60 if tier == "quick" else 1500):
         n = rng.randint(1, 4)
@@ -315,7 +315,11 @@ def _long_vals(spec):
     n, kind = L["n"], L["kind"]
     if kind == "date":
         vals = [_dt.date(2020, 1, 1) + _dt.timedelta(days=(k * 7) % 300) for k in range(n)]
-        new = {"promote": _dt.datetime(2021, 5, 6, 7, 8), "same": _dt.date(1999, 1, 1), "none": None}[L["new"]]
+        # promote_eq: the datetime at midnight of the very day stored at the written position - after the in-place promotion it
+        # EQUALS the element it replaces, while every element of the vector changed its hash (date -> datetime)
+        i_ = spec.get("i", 0) % n
+        new = {"promote": _dt.datetime(2021, 5, 6, 7, 8), "same": _dt.date(1999, 1, 1), "none": None,
+               "promote_eq": _dt.datetime.combine(vals[i_], _dt.time(0))}[L["new"]]
     elif kind == "bigint":
         vals = [(1 << 60) + 3 * k + 1 for k in range(n)]
         new = {"promote": 0.5, "same": 7, "none": None}[L["new"]]
